@@ -245,6 +245,8 @@ func runPlan(t *testing.T, p *Plan, c *checker) {
 				truncated := len(dump)+16384 >= effectiveMaxmem(st.Query)
 				if truncated {
 					c.probes["request-truncated-regime"]++
+				} else if len(dump) > 8<<20 {
+					c.probes["request-dump>8MiB-complete"]++
 				} else if len(dump) > 1<<20 {
 					c.probes["request-dump>1MiB-complete"]++
 				}
